@@ -118,6 +118,24 @@ fn bound_cmd(args: &[String]) -> Value {
             }
         }
     }
+    // sums whose value in nanoseconds lies just above or just below an integer (by less than 10^-3 ns): the
+    // round-up has to be exact there, a truncated intermediate shows
+    for &e in [-34i32, -33, -31, -30, -28].iter() {
+        let den: u128 = 1u128 << (-e);
+        let (mut above, mut below) = (0, 0);
+        let mut c: i32 = 8_000_001 + (seed % 1000) as i32 * 2;
+        while c < (1 << 24) && (above < 40 || below < 40) {
+            let frac = (c as u128 * 1_000_000_000u128) % den;
+            if frac != 0 && frac * 1000 < den && above < 40 {
+                above += 1;
+                vecs.push(([0, -30], [0, -30], [if above % 2 == 0 { -c } else { c }, e], phcs[above % 4], format!("nearint/above/e{e}")));
+            } else if frac != 0 && (den - frac) * 1000 < den && below < 40 {
+                below += 1;
+                vecs.push(([0, -30], [0, -30], [if below % 2 == 0 { -c } else { c }, e], phcs[below % 4], format!("nearint/below/e{e}")));
+            }
+            c += 2;
+        }
+    }
     let grid_n = vecs.len();
     while vecs.len() < grid_n + n {
         let e = |r: &mut StdRng| r.gen_range(-64..=-8);
@@ -166,6 +184,9 @@ fn ref_time_for(pos: &str, interval: f64) -> SystemTime {
         // a set of measure zero under a real clock, is deliberately not decided)
         "fresh" => now - Duration::from_secs_f64((8.0 * interval - 1.0).max(0.0)),
         "stale" => now - Duration::from_secs_f64(8.0 * interval + 2.0),
+        // 200 ms on either side of the threshold; a row that took longer than 150 ms of real time is redone
+        "freshnear" => now - Duration::from_secs_f64((8.0 * interval - 0.2).max(0.0)),
+        "stalenear" => now - Duration::from_secs_f64(8.0 * interval + 0.2),
         _ => now - Duration::from_secs(100_000),
     }
 }
@@ -190,14 +211,21 @@ fn class_cmd(args: &[String]) -> Value {
     let mut f = std::io::BufWriter::new(std::fs::File::create(&out).unwrap());
     let mut id = 0usize;
     for &leap in &leaps {
-        for (pos, spec_pos) in [("future", "future"), ("fresh0", "fresh"), ("fresh", "fresh"), ("stale", "stale"), ("ancient", "stale")] {
-            // the full leap range only with one interval; the small values with several
-            let intervals: &[f64] = if leap <= 8 { &[0.0, 0.1, 1.0, 4.0, 16.0, 1024.0] } else { &[16.0] };
+        for (pos, spec_pos) in [("future", "future"), ("fresh0", "fresh"), ("fresh", "fresh"), ("freshnear", "fresh"), ("stalenear", "stale"), ("stale", "stale"), ("ancient", "stale")] {
+            // the full leap range only with one interval; the small values with several (whole and fractional seconds)
+            let intervals: &[f64] = if leap <= 8 { &[0.0, 0.1, 0.5, 1.0, 2.5, 4.0, 16.0, 1024.0] } else { &[16.0] };
             for &interval in intervals {
                 // eight intervals below one second: every measurable age is "older than eight update intervals"
-                if interval < 0.5 && (pos == "fresh0" || pos == "fresh") {
+                if interval < 0.5 && (pos == "fresh0" || pos == "fresh" || pos == "freshnear") {
                     continue;
                 }
+                if (pos == "freshnear" || pos == "stalenear") && leap > 8 && leap % 97 != 0 {
+                    continue;
+                }
+              let mut attempts = 0;
+              loop {
+                attempts += 1;
+                let row_start = std::time::Instant::now();
                 let t = tracking(leap, ref_time_for(pos, interval), cf(1, -20), cf(1, -20), cf(1, -20), interval, 0);
                 let (_, st) = verif_writer::bound_and_status(t);
                 // through the real updater from each of the three FSM states (after a first measurement)
@@ -226,8 +254,13 @@ fn class_cmd(args: &[String]) -> Value {
                     up.clock_update(tracking(leap, ref_time_for(pos, interval), cf(1, -20), cf(1, -20), cf(1, -20), interval, 0), 0, libc::timespec { tv_sec: 50, tv_nsec: 0 });
                     pub0 = fields(cap.0.lock().unwrap().last().unwrap()).4;
                 }
+                if pos == "freshnear" && row_start.elapsed() > Duration::from_millis(150) && attempts < 20 {
+                    continue; // the process was stalled: the age of the reference time at classification is not known well enough
+                }
                 writeln!(f, "{}", json!({"id": id, "leap": leap, "refPos": spec_pos, "pos": pos, "interval": interval, "got": st, "pub": pubs, "pub0": pub0})).unwrap();
                 id += 1;
+                break;
+              }
             }
         }
     }
